@@ -14,7 +14,7 @@ MANIFEST = {
 
 
 def budgets(r, c):
-    bs = {c, c + 1, c * 2, 2 ** 64 - 1, max(1, c - 1), max(1, c // 2), 1}
+    bs = {c, min(c + 1, 2 ** 64 - 1), min(c * 2, 2 ** 64 - 1), 2 ** 64 - 1, max(1, c - 1), max(1, c // 2), 1}
     if c > 2:
         bs.add(c - r.randrange(1, min(c, 5000)))
     bs.discard(0)
